@@ -78,11 +78,17 @@ class _K:
     self.p, self.q = p, q
 
 
-SELECTORS = {'fa': ('fa', 'pqr'), 'sub.fb': ('m1.sub.fb', 'pq'), 'm1.sub.fb': ('m1.sub.fb', 'pq'),
+@gin.configurable('fé')
+def _fe(p=None, q=None):
+  return (p, q)
+
+
+# non-ASCII identifiers are legal names too (column arithmetic in the raw-text re-check)
+SELECTORS = {'fé': ('fé', 'pq'), 'fa': ('fa', 'pqr'), 'sub.fb': ('m1.sub.fb', 'pq'), 'm1.sub.fb': ('m1.sub.fb', 'pq'),
              'm2.fb': ('m2.fb', 'pq'), 'K': ('m1.K', 'pq'), 'm1.K': ('m1.K', 'pq')}
-SCOPES = ['', '', 's', 's/t', 'S', 'a/b/c']
+SCOPES = ['', '', 's', 's/t', 'S', 'a/b/c', 'sé/t']
 # macro names equal to the statement keywords are legal ("from = 1" is a macro definition)
-MACROS = ['M', 'mac', 'x_1', 'from', 'include', 'import']
+MACROS = ['M', 'mac', 'x_1', 'from', 'include', 'import', 'mé']
 IMPORTS = [('import', 'math', None), ('import', 'os.path', None), ('import', 'json', 'js'),
            ('import', 'collections.abc', 'cabc'), ('from', 'os.path', None),
            ('from', 'collections.abc', None), ('from', 'xml.dom', 'xdom'),
